@@ -28,13 +28,24 @@ EXTENDS Naturals, Sequences, FiniteSets, TLC
 CONSTANTS
     SkipPermitOpen,     \* sensitivity: the permitopen test is skipped
     SkipCert,           \* sensitivity: the certificate permission is not consulted
+    EmptySetMeansNoCert, \* sensitivity: a certificate whose option set is empty
+                        \*   is treated like a login without certificate
     LeakOnCancel        \* sensitivity: cancel forgets the listener without closing it
 
 OpenReqs == {"direct-tcpip", "socks", "direct-streamlocal"}
 ListenReqs == {"tcpip-forward", "streamlocal-forward"}
 Reqs == OpenReqs \cup ListenReqs
 KeyOpts == {"none", "no-port-forwarding", "permitopen-hp", "permitopen-hstar"}
+\* the user certificate: none, or the set of permit-* extensions it carries
+\* ("without" = all but permit-port-forwarding, "with" = all five; the others:
+\* the empty set, each single extension)
 Certs == {"none", "without", "with"}
+CertSets == {"empty", "pf", "pty", "x11", "agent", "rc", "without", "with"}
+HasPF(c) == c \in {"pf", "with"}
+\* critical options of the certificate: none, force-command, source-address
+\* that matches the client / does not (then the login itself fails)
+Crits == {"none", "force-command", "source-ok", "source-bad"}
+KeyOpts2 == {"none", "restrict", "no-port-forwarding", "permitopen-hp"}
 Apps == {"false", "true", "raises", "factory"}
 Dests == {"permitted", "otherhost", "otherport", "alias"}
 
@@ -46,8 +57,13 @@ ValidRow(r) ==
     /\ (r.req \notin {"direct-tcpip", "socks"} => r.dest = "permitted")
     /\ (r.req \in ListenReqs => r.app # "raises")
 
-Rows == {r \in [req : Reqs, key : KeyOpts, cert : Certs, app : Apps, dest : Dests] :
-            ValidRow(r)}
+Rows1 == {r \in [req : Reqs, key : KeyOpts, cert : Certs, crit : {"none"},
+                  app : Apps, dest : Dests] : ValidRow(r)}
+\* the certificate's option set x critical options x options of the CA line
+Rows2 == {r \in [req : Reqs \ {"socks"}, key : KeyOpts2, cert : CertSets, crit : Crits,
+                  app : {"true", "false"}, dest : {"permitted"}] :
+            r.crit # "none" => r.cert \in {"empty", "pf", "without", "with"}}
+Rows == Rows1 \cup Rows2
 
 VARIABLES row, phase, served, listeners, lbl
 vars == <<row, phase, served, listeners, lbl>>
@@ -56,8 +72,9 @@ vars == <<row, phase, served, listeners, lbl>>
 (* The requirement, declaratively *)
 
 CredentialAllows(r) ==
-    /\ r.key # "no-port-forwarding"
-    /\ r.cert \in {"none", "with"}
+    /\ r.key \notin {"no-port-forwarding", "restrict"}
+    /\ (r.cert = "none" \/ HasPF(r.cert))    \* no certificate # empty certificate
+    /\ r.crit # "source-bad"
 
 DestinationAllowed(r) ==
     IF r.req \in {"direct-tcpip", "socks"}
@@ -74,13 +91,16 @@ Permitted(r) == CredentialAllows(r) /\ DestinationAllowed(r) /\ AppAccepts(r)
 (* The decision procedure of the code *)
 
 \* authorized_keys options / certificate options as the connection holds them
-KeyNoPF(r) == r.key = "no-port-forwarding"
+KeyNoPF(r) == r.key \in {"no-port-forwarding", "restrict"}
 PermitOpens(r) == CASE r.key = "permitopen-hp"    -> {<<"H", "P">>}
                     [] r.key = "permitopen-hstar" -> {<<"H", "ANY">>}
                     [] OTHER -> {}
-CertOptions(r) == CASE r.cert = "none"    -> "nocert"
-                    [] r.cert = "with"    -> "permit"
-                    [] OTHER -> "empty"
+\* _cert_options: None without certificate, else the dict of its options
+CertOptions(r) == CASE r.cert = "none" -> "nocert"
+                    [] r.cert = "empty" /\ r.crit \in {"none", "source-bad"}
+                                       /\ EmptySetMeansNoCert -> "nocert"
+                    [] HasPF(r.cert)   -> "permit"
+                    [] OTHER -> "nopermit"
 Dest(r) == CASE r.dest = "permitted" -> <<"H", "P">>
              [] r.dest = "otherhost" -> <<"H2", "P">>
              [] r.dest = "otherport" -> <<"H", "P2">>
@@ -90,7 +110,8 @@ CheckKeyPermission(r) == ~KeyNoPF(r)
 CheckCertPermission(r) == SkipCert \/ CertOptions(r) \in {"nocert", "permit"}
 
 Decide(r) ==
-    IF ~CheckKeyPermission(r) \/ ~CheckCertPermission(r) THEN "prohibited"
+    IF r.crit = "source-bad" THEN "noauth"
+    ELSE IF ~CheckKeyPermission(r) \/ ~CheckCertPermission(r) THEN "prohibited"
     ELSE IF r.req \in {"direct-tcpip", "socks"} /\ ~SkipPermitOpen
             /\ PermitOpens(r) # {}
             /\ Dest(r) \notin PermitOpens(r)
